@@ -129,6 +129,9 @@ def outcome_list(res):
 
 def model_list(model):
     """what `list` must print according to the model's context"""
+    if "list" in model:
+        # computed by the Lean model of `to_serializable_report` (`Bw.ListReport.report`)
+        return {path: [K.canon(e) for e in entries] for path, entries in model["list"].items()}
     files = model.get("ctx", {}).get("files")
     if files is None:
         return None
